@@ -75,6 +75,7 @@ type Op struct {
 	Lead int    `json:"lead,omitempty"` // respell: leading zeros in front of the rating group's decimal digits
 	Pdu  int    `json:"pdu,omitempty"`  // create: 1 carries pDUSessionChargingInformation with the request's charging id, 2 with another one
 	NSt  int    `json:"nst,omitempty"`  // create: the consumer answers notifications with this status (0: 204)
+	N    int    `json:"n,omitempty"`    // bystanders: how many
 }
 
 type Hist struct {
@@ -268,8 +269,31 @@ func doHTTP(method, path string, body []byte, hdr map[string]string) (int, []byt
 		}
 	}
 	rec := httptest.NewRecorder()
-	engine.ServeHTTP(rec, req)
+	done := make(chan struct{})
+	go func() {
+		defer close(done)
+		engine.ServeHTTP(rec, req)
+	}()
+	select {
+	case <-done:
+	case <-time.After(hangAfter):
+		// far beyond anything a request can take (3 rating groups x 4 exchanges x 5 s): the request is blocked
+		return statusHung, []byte(fmt.Sprintf("HARNESS: %s %s has not returned after %v - the request is blocked", method, path, hangAfter)), http.Header{}
+	}
 	return rec.Code, rec.Body.Bytes(), rec.Header()
+}
+
+const (
+	hangAfter  = 150 * time.Second
+	statusHung = 598
+)
+
+// rejSig names a well-formed request that was not served: rejected, or never answered at all.
+func rejSig(res *Result) string {
+	if res.Status == statusHung {
+		return "request-never-returns/"
+	}
+	return "valid-request-rejected/"
 }
 
 func trig(name string) []models.ChfConvergedChargingTrigger {
@@ -464,6 +488,36 @@ func (w *World) Exec(op Op) *Result {
 			}
 			if op.K == "release" {
 				se.live, se.released = false, true
+			}
+		}
+	case "bystanders":
+		// N other subscribers each open a session (no quota asked, nothing reported) and every other one closes
+		// it again: the CHF's process-wide population (subscriber contexts, sessions, records, the record counter)
+		// grows while the subscribers of the history are idle
+		res.Status = http.StatusCreated
+		nf := &models.ChfConvergedChargingNfIdentification{NFName: "smf", NodeFunctionality: "SMF"}
+		for i := 0; i < op.N; i++ {
+			chargingIDSeq++
+			supi := env.NewSupi()
+			req := models.ChfConvergedChargingChargingDataRequest{SubscriberIdentifier: supi, ChargingId: chargingIDSeq, NfConsumerIdentification: nf,
+				InvocationTimeStamp: &now, InvocationSequenceNumber: 1}
+			body, _ := json.Marshal(req)
+			code, rb, hd := doHTTP("POST", prefix+"/chargingdata", body, nil)
+			if code != http.StatusCreated {
+				res.Status, res.Body, res.Path = code, []byte(fmt.Sprintf("bystander %d of %d (create for %s): %.200s", i+1, op.N, supi, rb)), prefix+"/chargingdata"
+				break
+			}
+			if i%2 == 0 {
+				path := prefix + "/chargingdata/" + url.PathEscape(refOf(hd.Get("Location"))) + "/release"
+				req.InvocationSequenceNumber = 2
+				body, _ = json.Marshal(req)
+				if code, rb, _ = doHTTP("POST", path, body, nil); code != http.StatusNoContent {
+					res.Status, res.Body, res.Path = code, []byte(fmt.Sprintf("bystander %d of %d (release of %s): %.200s", i+1, op.N, path, rb)), path
+					if code < 400 {
+						res.Status = 599
+					}
+					break
+				}
 			}
 		}
 	case "recharge":
